@@ -214,6 +214,12 @@ func (operation *Operation) Validate(ctx context.Context, opts ...ValidationOpti
 		return errors.New("value of responses must be an object")
 	}
 
+	for _, name := range componentNames(operation.Callbacks) {
+		if err := operation.Callbacks[name].Validate(ctx); err != nil {
+			return fmt.Errorf("invalid callback %q: %w", name, err)
+		}
+	}
+
 	if v := operation.Servers; v != nil {
 		if err := v.Validate(ctx); err != nil {
 			return fmt.Errorf("invalid servers: %w", err)
